@@ -716,6 +716,8 @@ class Interp:
         k = rv[0]
         if k == 'use':
             return self.eval_operand(frame, rv[1])
+        if k == 'tls':
+            raise Unsupported('thread-local static %s' % rv[1])
         if k == 'ref':
             pl = rv[2]
             if pl.proj and pl.proj[-1][0] == 'deref':
